@@ -210,3 +210,76 @@ CONTRACTS = CONTRACTS + [
              "false|Mat|zero": "dsw.spiderweb.encode#normal-table", "false|Mat|int": "dsw.spiderweb.encode#normal-table-vt"}}),
     encode_variant(False, False), encode_variant(True, False), encode_variant(False, True), encode_variant(True, True),
 ]
+
+
+# ------------------------------------------------------------------------------------------------------------------ decode (normal mode)
+GRAPH = {"graph": "k >= 1 and is_accessor(accessor, k)", "start": "start_index < " + N}
+DEAD = ("assert walkv(accessor, dna_sequence, start_index, _i + 1) < 0, 'this-prefix-is-not-a-walk'\n"
+        "walk_dead(A2(accessor), A(dna_sequence), P(dna_sequence, 0), start_index, _i + 1, len(dna_sequence))")
+
+
+def decode_variant(shuffled, with_check):
+    name = "dsw.spiderweb.decode#normal" + ("-table" if shuffled else "") + ("-vt" if with_check else "")
+    req = dict(GRAPH)
+    if shuffled:
+        req["table"] = "is_table(shuffles, k)"
+    if with_check:
+        req["check-length"] = "len(vt_check) >= 1"
+    not_walk = "walkv(accessor, dna_sequence, start_index, len(dna_sequence)) < 0"
+    rz = ("(not (is_dna(dna_sequence) and vt_matches(vt_check, dna_sequence))) or " + not_walk) if with_check else not_walk
+    ghost = {
+        "before_loop1": "dgp = []\nddp = []\nvtxd = [vertex_index]",
+        "loop1_begin": "v0 = vertex_index\n" + LIVE_SPLIT,
+        "loop1_end": "dgp.append(deg(accessor, v0))\n"
+                     "ddp.append(ite(deg(accessor, v0) > 1, digit_of_arc(accessor, shuffles, v0, code(nucleotide)), 0))\n"
+                     "vtxd.append(vertex_index)\n"
+                     "assert dec_step(accessor, shuffles, dgp, ddp, vtxd, dna_sequence, _i), 'this-step'",
+        "before_raise2": DEAD, "before_raise3": DEAD, "before_raise4": DEAD,
+        "after_loop1": "nsaved = len(saved_values)\nsvd = first(saved_values)\nsvg = second(saved_values)",
+        "after_loop2": "hv_lv_dual(A(svd), A(svg), 0, nsaved)\n"
+                       "pv_bound(A(quotient), D(quotient), P(quotient, 0), P(quotient, len(quotient)), 10)",
+    }
+    return dict(
+        name=name, function="dsw.spiderweb.decode", variant_of="dsw.spiderweb.decode", n_loops=3,
+        ghost_params={"k": "nat"},
+        params={"dna_sequence": "str", "bit_length": "nat", "accessor": "mat(ipow(4, k), 4)", "start_index": "nat", "is_faster": "false",
+                "vt_check": "str" if with_check else "none", "shuffles": "mat(ipow(4, k), 4)" if shuffled else "none", "verbose": "false"},
+        requires=req,
+        types={"saved_values": "list_pair"},
+        returns="nd_bits",
+        ghost_returns={"dgp": "list_int", "ddp": "list_int", "vtxd": "list_int"},
+        ensures={
+            "length": "len(result) == bit_length",
+            "ghost-lengths": "len(dgp) == len(dna_sequence) and len(ddp) == len(dna_sequence) and len(vtxd) == len(dna_sequence) + 1 and vtxd[0] == start_index",
+            "reads-the-walk": "forall(lambda p: dec_step(accessor, shuffles, dgp, ddp, vtxd, dna_sequence, p), 0, len(dna_sequence), lambda p: dna_sequence[p])",
+            "value": "implies(lv(dgp, ddp, 0, len(dna_sequence)) < ipow(2, bit_length), "
+                     "val(result, 0, bit_length, 2) == lv(dgp, ddp, 0, len(dna_sequence)))",
+        },
+        raises={"ValueError": rz},
+        ghost=ghost,
+        loops={
+            1: dict(binds="enumerate(dna_sequence)", invariant={
+                "walk-so-far": "vertex_index == walkv(accessor, dna_sequence, start_index, _i) and 0 <= vertex_index and vertex_index < " + N,
+                "ghost-lengths": "len(dgp) == _i and len(ddp) == _i and len(vtxd) == _i + 1 and vtxd[0] == start_index and vtxd[_i] == vertex_index",
+                "steps-so-far": "forall(lambda p: dec_step(accessor, shuffles, dgp, ddp, vtxd, dna_sequence, p), 0, _i, lambda p: dna_sequence[p])",
+                "saved-ranges": "forall(lambda i: 2 <= first(saved_values)[i] and first(saved_values)[i] <= 4 and 0 <= second(saved_values)[i] and "
+                                "second(saved_values)[i] < first(saved_values)[i], 0, len(saved_values))",
+                "same-value": "lv(first(saved_values), second(saved_values), 0, len(saved_values)) == lv(dgp, ddp, 0, _i) and "
+                              "wt(first(saved_values), 0, len(saved_values)) == wt(dgp, 0, _i)",
+            }),
+            2: dict(binds="enumerate(saved_values[::-1])", invariant={
+                "canonical": "canon(quotient)",
+                "horner": "dval(quotient) == hv(svd, svg, nsaved - _i, nsaved)",
+            }),
+        },
+        lemmas=["pv_store_frame", "wt_store_frame", "lv_store_frame"],
+    )
+
+
+CONTRACTS = CONTRACTS + [
+    dict(name="dsw.spiderweb.decode", abstract=True,
+         dispatch={"params": ["is_faster", "shuffles", "vt_check"], "table": {
+             "false|NoneV|NoneV": "dsw.spiderweb.decode#normal", "false|Mat|NoneV": "dsw.spiderweb.decode#normal-table",
+             "false|NoneV|str": "dsw.spiderweb.decode#normal-vt", "false|Mat|str": "dsw.spiderweb.decode#normal-table-vt"}}),
+    decode_variant(False, False), decode_variant(True, False),
+]
